@@ -36,6 +36,13 @@ class Unrebuildable(Exception):
         self.a, self.b = a, b
 
 
+class Undescribable(Exception):
+    """a failure whose description cannot be built: the worker cannot wrap it into a failure result"""
+
+    def __str__(self):
+        raise RuntimeError('cannot describe the failure')
+
+
 class _Exit(BaseException):
     """the worker process exits (sys.exit inside the replayed code)"""
 
@@ -78,6 +85,8 @@ def make_functions(beh, ids, sched=None, state=None):
             state['playing'][k] = sched.clock
         if b == 'playerRaises':
             raise ValueError('scripted player failure for %s' % recording_id)
+        if b == 'reportRaises':
+            raise Undescribable()
         if b == 'exits':
             raise _Exit()
         if b == 'hangs':
@@ -183,6 +192,8 @@ def run_inprocess_real(beh, keep_results):
             r = EqOp().execute()
             if b == 'playerRaises':
                 raise ValueError('scripted failure of the playback function after the operation replayed')
+            if b == 'reportRaises':
+                raise Undescribable()
             return r
         try:
             return tr.play(recording_id, fn)
@@ -385,7 +396,7 @@ def impl_events(log, out):
             if k == 'get':
                 ev.append({'e': 'take', 'g': g})
             elif k == 'put':
-                ev.append({'e': 'answer', 'g': g})
+                ev.append({'e': 'answer', 'g': g, 'ok': bool(e.get('flag', True))})
     ev.append({'e': 'out', 'verdicts': [o['verdict'] for o in out]})
     return ev
 
